@@ -98,11 +98,14 @@ func GetKeyFromPassword(passwd string, cname types.PrincipalName, realm string, 
 				// ETYPE-INFO is a SEQUENCE OF that may be empty: it then carries no hint.
 				continue
 			}
-			if etypeID != eti[0].EType {
+			// The element that takes precedence names the etype together with its salt, whatever an element
+			// of lower rank seen earlier selected.
+			if et.GetETypeID() != eti[0].EType {
 				et, err = GetEtype(eti[0].EType)
 				if err != nil {
 					return key, et, fmt.Errorf("error getting encryption type: %v", err)
 				}
+				sk2p = et.GetDefaultStringToKeyParams()
 			}
 			salt = string(eti[0].Salt)
 			paID = pa.PADataType
@@ -119,11 +122,12 @@ func GetKeyFromPassword(passwd string, cname types.PrincipalName, realm string, 
 				// An empty ETYPE-INFO2 (not valid, RFC 4120 requires at least one entry) carries no hint.
 				continue
 			}
-			if etypeID != et2[0].EType {
+			if et.GetETypeID() != et2[0].EType {
 				et, err = GetEtype(et2[0].EType)
 				if err != nil {
 					return key, et, fmt.Errorf("error getting encryption type: %v", err)
 				}
+				sk2p = et.GetDefaultStringToKeyParams()
 			}
 			if len(et2[0].S2KParams) == 4 {
 				sk2p = hex.EncodeToString(et2[0].S2KParams)
